@@ -52,6 +52,10 @@ class Check:
             if "predicate" in m:
                 if ast is None or not fmod.PREDICATES[m["predicate"]](ast):
                     continue
+            if "digests" in m:
+                got = (ctx or {}).get("digests")
+                if not got or not set(got) <= set(m["digests"]):
+                    continue
             if "rule" in m:
                 if ast is None or not fmod.RULES[m["rule"]](ast, jobs, ctx or {}):
                     continue
